@@ -399,7 +399,19 @@ func (w *_listpairsIteratorRepr) Next() (index int64, value datamodel.Node, _ er
 		if err != nil {
 			return 0, nil, err
 		}
-		return int64(idx), field, nil
+		// The index is the position in the representation list, where absent fields take no place.
+		pos := 0
+		probe := _structIterator{cfg: w.cfg, schemaType: w.schemaType, fields: w.fields, val: w.val, reprEnd: w.reprEnd}
+		for probe.nextIndex < idx {
+			_, earlier, err := probe.Next()
+			if err != nil {
+				return 0, nil, err
+			}
+			if !earlier.IsAbsent() {
+				pos++
+			}
+		}
+		return int64(pos), field, nil
 	}
 }
 
